@@ -756,6 +756,8 @@ class IPAddr6 (_AddrBase):
     return self.to_str()
 
   def __hash__ (self):
+    # An IPv4-mapped address equals the IPAddr it maps, so hash like it
+    if self._value.startswith(b'\0'*10 + b'\xff\xff'): return hash(self.ipv4)
     return self._value.__hash__()
 
   def __repr__ (self):
